@@ -377,7 +377,8 @@ fn gen_nests(r: &mut StdRng, w: &World, recipe: &Value, plain: bool, only_applic
 		if only_applicable && kind == 2 && encl_methods.is_empty() { kind = 0; }
 		let wrong = !only_applicable && r.gen_bool(0.2);       // violate the rule of the kind
 		let present_m = || -> Option<Value> { encl_methods.first().map(|(n, d)| json!([n, d])) };
-		let absent_m = json!(["nope", "(I)V"]);
+		// a method the enclosing class does not declare: a foreign name, or a declared name with another descriptor
+		let absent_m = match encl_methods.first() { Some((n, _)) if r.gen_bool(0.5) => json!([n, "(Ljava/lang/Void;)J"]), _ => json!(["nope", "(I)V"]) };
 		let (inner, m) = match kind {
 			0 => {      // inner: derived or custom name; no method, or one the enclosing class does not declare
 				let inner = if r.gen_bool(0.5) { simple.clone() } else { format!("In{j}") };
